@@ -22,8 +22,9 @@ fn key_name(k: u64) -> String {
     format!("key-{k}")
 }
 fn val_str(tok: u64) -> String {
-    // variable length so that record sizes differ
-    format!("val-{tok}-{}", "x".repeat((tok % 23) as usize))
+    // variable length so that record sizes differ; some values are long enough for bytes shifted
+    // from the key into the value to decode as a (never written) string
+    format!("val-{tok}-{}", "x".repeat((tok % 89) as usize))
 }
 fn key_tok(s: &str) -> i64 {
     s.strip_prefix("key-").and_then(|x| x.parse().ok()).unwrap_or(-1)
@@ -518,7 +519,7 @@ pub fn drive(a: &Args) -> i32 {
                         let ri = rng.gen_range(0..fr.len());
                         let (off, len, _, _) = fr[ri];
                         let mut data = std::fs::read(&target).unwrap_or_default();
-                        let mut class = ["payload", "payload", "len", "lenbig", "trunc", "truncb", "append", "dup", "transplant", "multi", "lenmerge", "lenmerge"][rng.gen_range(0..12)];
+                        let mut class = ["payload", "payload", "len", "lenbig", "trunc", "truncb", "append", "dup", "transplant", "multi", "lenmerge", "lenmerge", "shift", "shift"][rng.gen_range(0..14)];
                         if class == "lenmerge" && ri + 1 >= fr.len() {
                             class = "payload";
                         }
@@ -537,6 +538,30 @@ pub fn drive(a: &Args) -> i32 {
                             "len" => {
                                 let p = (off + rng.gen_range(0..4)) as usize;
                                 data[p] ^= 1 << rng.gen_range(0..8);
+                            }
+                            "shift" => {
+                                // a coherent multi-byte edit: the last byte of the key moves to the front of the value,
+                                // every length prefix is adjusted, the integrity tag is left as it was
+                                let body = data[(off + 4) as usize..(off + 4 + len) as usize].to_vec();
+                                if let Ok(mut e) = postcard::from_bytes::<WalEntry>(&body)
+                                    && let Some(v) = e.value.clone()
+                                    && let Some(last) = e.key.pop()
+                                {
+                                    let mut nv = vec![last as u8];
+                                    nv.extend_from_slice(&v);
+                                    e.value = Some(nv);
+                                    if let Ok(nb) = postcard::to_stdvec(&e) {
+                                        let mut nd = data[..off as usize].to_vec();
+                                        nd.extend_from_slice(&(nb.len() as u32).to_le_bytes());
+                                        nd.extend_from_slice(&nb);
+                                        nd.extend_from_slice(&data[(off + 4 + len) as usize..]);
+                                        data = nd;
+                                    }
+                                } else {
+                                    class = "payload";
+                                    let p = (off + 4 + rng.gen_range(0..len)) as usize;
+                                    data[p] ^= 1 << rng.gen_range(0..8);
+                                }
                             }
                             "lenmerge" => {
                                 // the length prefix of record ri now spans exactly records ri and ri+1: framing behind it is intact
